@@ -471,6 +471,15 @@ func DedupFacts(fs []m.Pred) []m.Pred {
 	return out
 }
 
+// ToParsedAuthorizer builds the value a caller would get from the parser for az.
+func ToParsedAuthorizer(az m.Authz) biscuit.ParsedAuthorizer {
+	pa := biscuit.ParsedAuthorizer{Block: toParsedBlock(az.Facts, az.Rules, az.Checks)}
+	for _, p := range az.Policies {
+		pa.Policies = append(pa.Policies, ToPolicy(p))
+	}
+	return pa
+}
+
 func AddAuthz(a biscuit.Authorizer, az m.Authz) {
 	switch deliveryOf(az.Key()) {
 	case 0:
